@@ -39,7 +39,7 @@ def fx_formats_small(quick):
     return [(sw, iw, fw) for sw in (0, 1) for iw in (1, 2, 3) for fw in (0, 1, 2, 3) if sw + iw + fw <= maxw]
 
 FX_BIG = [(1, 16, 16), (1, 8, 8), (0, 8, 8), (1, 1, 62), (1, 32, 0), (1, 20, 44), (0, 1, 15), (1, 5, 15), (1, 3, 10), (1, 30, 70)]
-FX_NO_INT_BITS = [(1, 0, 3), (0, 0, 4), (1, 0, 0)]
+FX_NO_INT_BITS = [(1, 0, 3), (0, 0, 4), (1, 0, 0), (1, 0, 1), (0, 0, 1), (0, 0, 3), (1, 0, 2), (1, 0, 15), (0, 0, 16)]      # pure fractions (finding #23)
 
 
 def fx_cases(rng, quick):
